@@ -165,6 +165,28 @@ def rule_a(repo, chk):
         bad = [r for r in rebinds if any(Q.reaches(gd, r) for gd in gdefs)]
         chk.ob('a', f.ref, 'the request-path variable is not changed after the location was checked', not bad, loc(f, (bad[0].ast if bad else f.node)),
                discr='path-not-rebound')
+    # the path joined to the docroot is relative: '/' is stripped from the *decoded* text (an encoded slash that survives a strip done first would make it absolute,
+    # and os.path.join drops everything before an absolute component)
+    joined = sorted({pv for lst in locdefs.values() for _n, pv in lst if pv})
+    for pv in joined:
+        defs = [n for n in g.nodes if n.kind == 'stmt' and isinstance(n.ast, ast.Assign) and src(n.ast.targets[0]) == pv]
+        dec = [n for n in defs if any(call_name(c) in ('unquote', 'urllib.parse.unquote', 'unquote_plus') for c in calls_in(n.ast.value))]
+        last_defs = [n for n in defs if not any(Q.reaches(n, m) and m is not n for m in defs)]
+
+        def stripped_after_decode(e):
+            # <…unquote(X)…>.strip('/') / .lstrip('/'): the strip is applied to the result of the decoding
+            return isinstance(e, ast.Call) and isinstance(e.func, ast.Attribute) and e.func.attr in ('strip', 'lstrip') and len(e.args) == 1 and pat.is_const(e.args[0], '/') \
+                and any(call_name(c) in ('unquote', 'urllib.parse.unquote', 'unquote_plus') for c in calls_in(e.func.value) + ([e.func.value] if isinstance(e.func.value, ast.Call) else []))
+        ok = bool(dec) and all(stripped_after_decode(n.ast.value) for n in dec) and all(n in dec or any(Q.reaches(n, d) for d in dec) for n in defs)
+        chk.ob('a', f.ref, f'`{pv}` is made relative after it was decoded: the leading "/" is stripped from the decoded text, and nothing decodes it again afterwards', ok,
+               loc(f, (dec or defs or [g.entry])[0].ast) if (dec or defs) else loc(f, f.node), detail='; '.join(src(n.ast)[:60] for n in dec), discr='relative-after-decoding')
+    # a dispatcher mounted under a prefix answers the mount point and what lies below it, nothing that merely starts with the same characters
+    mount_tests = [n for n in g.nodes if n.kind == 'test' and isinstance(n.ast, ast.Call) and isinstance(n.ast.func, ast.Attribute) and n.ast.func.attr == 'startswith'
+                   and src(n.ast.func.value) == f'{req}.path' and n.ast.args and 'self.path' in src(n.ast.args[0])]
+    if mount_tests or any(n.kind == 'test' and 'self.path' in src(n.ast) for n in g.nodes):
+        okm = bool(mount_tests) and all(src(n.ast.args[0]).replace(' ', '').replace('"', "'") in ("self.path.rstrip('/')+'/'", "self.path+'/'") for n in mount_tests)
+        chk.ob('a', f.ref, 'the mount test respects segment boundaries (the prefix followed by "/", or the mount point itself)', okm,
+               loc(f, mount_tests[0].ast) if mount_tests else loc(f, f.node), detail='; '.join(src(n.ast) for n in mount_tests), discr='mount-boundary')
     # docroot is absolute and normalised
     init = repo.func(WEB_STATIC, 'Static.__init__')
     chk.touch(init)
@@ -228,7 +250,16 @@ def rule_b(repo, chk):
                         break
         return may[f.name]
     res = analyse(entry)
-    parsing = [f for f in m.functions.values() if f.name in may]
+    # every function of the module reachable from the entry takes part in the parsing (whether or not the first uncaught raiser was found before it)
+    reach, todo = {entry.name}, [entry]
+    while todo:
+        f_ = todo.pop()
+        for c in calls_in(f_.node):
+            nm = call_name(c)
+            if nm in m.functions and nm not in reach:
+                reach.add(nm)
+                todo.append(m.functions[nm])
+    parsing = [f for f in m.functions.values() if f.name in reach]
     n_raisers = sum(len(_value_raisers(f)) for f in parsing)
     for f in parsing:
         chk.touch(f)
@@ -343,6 +374,27 @@ def rule_c(repo, chk):
         chk.ob('c', f.ref, f'{kind} range: the start index is inside the entity', ok_a, loc(f, c), detail=det_a, discr=f'start-bounded:{kind}')
         if kind == 'explicit':
             q = pat.guarded_by(g, n, pat.test_edge(lambda tt, pol: pat.fact_matches(pat.compare_fact(tt, pol), b.left.id if isinstance(b, ast.BinOp) else '?', ('>=',), a.id if isinstance(a, ast.Name) else '?')))
+            if q is not None and isinstance(a, ast.Name) and isinstance(b, ast.BinOp) and isinstance(b.left, ast.Name):
+                # no test of the final values, but it follows: start < length (tested), and every definition of stop is either length - 1 (open range) or
+                # min(last as written, length - 1) with last >= start tested on the written value
+                sv_, av_ = b.left.id, a.id
+                inside = pat.guarded_by(g, n, pat.test_edge(lambda tt, pol: pat.fact_matches(pat.compare_fact(tt, pol), av_, ('<',), clen))) is None
+                follows = inside
+                for d in Q.reaching_defs(g, n, sv_):
+                    v = getattr(d.ast, 'value', None) if d.kind == 'stmt' and isinstance(d.ast, ast.Assign) else None
+                    if v is None:
+                        follows = False
+                    elif isinstance(v, ast.Call) and call_name(v) == 'min' and any(isinstance(x, ast.Name) and x.id == sv_ for x in v.args) and \
+                            any(at_most_last(d, x) for x in v.args if not (isinstance(x, ast.Name) and x.id == sv_)):
+                        written_ok = pat.guarded_by(g, d, pat.test_edge(lambda tt, pol: pat.fact_matches(pat.compare_fact(tt, pol), sv_, ('>=',), av_))) is None
+                        follows = follows and written_ok
+                    elif isinstance(v, (ast.BinOp, ast.Name)) and at_most_last(d, v) and not any(isinstance(w_, ast.Call) for w_ in ast.walk(v)):
+                        # exactly length - 1 (through a local): at_most_last of a non-min expression means the value is `length - 1`
+                        pass
+                    else:
+                        follows = False
+                if follows:
+                    q = None
             chk.ob('c', f.ref, 'explicit range: a reversed range is never appended', q is None, loc(f, c), discr='not-reversed')
             # "reversed ⇒ ignore the header" may only be concluded for a range that starts inside the entity: an open range  gets
             # length-1 as its end, so for N ≥ length it would look reversed although it is unsatisfiable (416)
@@ -352,10 +404,72 @@ def rule_c(repo, chk):
                 okr = bool(rev_edges)
                 for e in rev_edges:
                     q2 = pat.guarded_by(g, e.src, pat.test_edge(lambda tt, pol: pat.fact_matches(pat.compare_fact(tt, pol), a.id, ('<',), clen)))
-                    if q2 is not None:
+                    # … or the test compares the positions as the client wrote them (both parsed from their tokens, neither clamped nor defaulted): a
+                    # last-byte-pos below the first-byte-pos is invalid wherever the two lie
+                    as_written = all(d.kind == 'stmt' and isinstance(d.ast, ast.Assign) and isinstance(d.ast.value, ast.Call) and call_name(d.ast.value) in ('_position', 'int')
+                                     for v_ in (b.left.id, a.id) for d in Q.reaching_defs(g, e.src, v_))
+                    if q2 is not None and not as_written:
                         okr = False
                 chk.ob('c', f.ref, 'the reversed-range test (ignore the header) is applied only to ranges that start inside the entity; an unsatisfiable start is '
                                    'recognised first', okr, loc(f, c), discr='unsatisfiable-before-reversed')
+    rule_grammar(repo, chk, f, g, clen)
+
+
+def rule_grammar(repo, chk, f, g, clen):
+    """What the parser accepts is the byte-ranges grammar: unit `bytes`, positions 1*DIGIT, last >= first as written; a header outside it is ignored (None), and a
+    header inside it is never refused by the parser itself."""
+    m = repo.module(WEB_UTILS)
+    rets_none = [n for n in g.nodes if n.kind == 'stmt' and isinstance(n.ast, ast.Return) and (n.ast.value is None or pat.is_const(n.ast.value, None))]
+    # unit
+    unitv = None
+    for n in g.nodes:
+        if n.kind == 'stmt' and isinstance(n.ast, ast.Assign) and isinstance(n.ast.targets[0], ast.Tuple) and len(n.ast.targets[0].elts) == 2 \
+                and src(n.ast.value).replace('"', "'").endswith(".split('=', 1)") and isinstance(n.ast.targets[0].elts[0], ast.Name):
+            unitv = n.ast.targets[0].elts[0].id
+    edges = [e for n in g.nodes if n.kind == 'test' for e in n.succ
+             if unitv and (lambda fc: fc is not None and unitv in fc[0] and fc[1] == '!=' and fc[2].replace('"', "'") == "'bytes'")(pat.compare_fact(n.ast, e.kind))]
+    oku = bool(edges) and all(e.dst in rets_none or Q.escapes(g, [e.dst], lambda n: n in rets_none) is None for e in edges)
+    chk.ob('c', f.ref, 'a Range header whose unit is not `bytes` is ignored (the ranges of another unit are not byte ranges)', oku, loc(f, f.node), discr='unit-is-bytes')
+    # positions: every int() over a token is guarded by "ASCII digits only"
+    n_int = 0
+    funcs = [f] + [m.functions[nm] for nm in sorted({call_name(c) for c in calls_in(f.node)} & set(m.functions)) if nm != f.name]
+    for fn in funcs:
+        gf = fn.cfg()
+        for n in gf.nodes:
+            if n.ast is None or n.kind not in ('stmt', 'test'):
+                continue
+            for c in pat.node_calls(n):
+                if call_name(c) == 'int' and len(c.args) == 1:
+                    n_int += 1
+                    x = src(c.args[0])
+                    q1 = pat.guarded_by(gf, n, pat.test_edge(lambda tt, pol: pol == 'T' and src(tt) == f'{x}.isdigit()'))
+                    q2 = pat.guarded_by(gf, n, pat.test_edge(lambda tt, pol: pol == 'T' and src(tt) == f'{x}.isascii()'))
+                    chk.ob('c', fn.ref, 'a position is converted with int() only after it was found to consist of ASCII digits (int() alone also takes signs, blanks, "_" and '
+                                        'non-ASCII digits)', q1 is None and q2 is None, loc(fn, c), discr=f'digits-only:{fn.name}')
+    chk.ob('c', f.ref, 'the positions of a byte-range-spec are converted somewhere', n_int >= 1, loc(f, f.node), discr='positions-converted', nontrivial=False)
+    # reversed as written
+    aw = []
+    for n in g.nodes:
+        if n.kind != 'test' or not isinstance(n.ast, ast.Compare) or len(n.ast.ops) != 1 or not isinstance(n.ast.left, ast.Name) or not isinstance(n.ast.comparators[0], ast.Name):
+            continue
+        both = all(d.kind == 'stmt' and isinstance(d.ast, ast.Assign) and isinstance(d.ast.value, ast.Call) and call_name(d.ast.value) in ('_position', 'int')
+                   for v_ in (n.ast.left.id, n.ast.comparators[0].id) for d in Q.reaching_defs(g, n, v_))
+        if both and isinstance(n.ast.ops[0], (ast.Lt, ast.Gt, ast.LtE, ast.GtE)):
+            for e in n.succ:
+                fc = pat.compare_fact(n.ast, e.kind)
+                if fc and fc[1] in ('<', '>') and (e.dst in rets_none or Q.escapes(g, [e.dst], lambda m_: m_ in rets_none) is None):
+                    aw.append(n)
+    chk.ob('c', f.ref, 'a spec whose last position is below its first, as the client wrote them (before any clamping), makes the header invalid: it is ignored', bool(aw),
+           loc(f, aw[0].ast) if aw else loc(f, f.node), discr='reversed-as-written')
+    # whitespace: the two sides of a spec are not stripped individually (blanks inside a spec are not part of the grammar)
+    inner_strip = [c for c in calls_in(f.node) if isinstance(c.func, ast.Attribute) and c.func.attr == 'strip' and isinstance(getattr(c, '_parent', None), ast.GeneratorExp)]
+    chk.ob('c', f.ref, 'blanks inside a byte-range-spec are not removed before the positions are checked', not inner_strip, loc(f, inner_strip[0]) if inner_strip else loc(f, f.node),
+           discr='no-inner-strip')
+    # the parser itself never refuses a header it has understood: unsatisfiable is the caller's conclusion from an empty result
+    refusals = [n for n in g.nodes if n.kind == 'stmt' and isinstance(n.ast, ast.Raise) and n.ast.exc is not None and 'ValueError' not in src(n.ast.exc)]
+    chk.ob('c', f.ref, 'a well-formed range set is never refused by the parser (no exception other than the ValueError of a malformed header): what cannot be satisfied '
+                       'is left out, and an empty result means 416', not refusals, loc(f, refusals[0].ast) if refusals else loc(f, f.node),
+           detail='; '.join(src(n.ast)[:60] for n in refusals), discr='no-refusal-of-satisfiable-sets')
 
 
 def _is_min_clamp(v, sv, clen):
